@@ -505,10 +505,144 @@ pub fn saturated_script(rng: &mut Rng) -> Option<(MBoard, bool, Vec<Code>, &'sta
     None
 }
 
+/// W5b kind "frozen_dead_end": a lone mobile piece X walks three steps up to a stronger enemy piece Y and
+/// is frozen there; Y steps away, X retreats, Y comes back, X walks up again (second occurrence); after a
+/// second, different retreat X arrives for the third time with exactly three steps: at step 3 X is
+/// frozen, every other piece of its side is frozen too, and the pass is withheld (third occurrence) -
+/// the action lists are empty BEFORE any repetition filter runs. Returns (board, first mover, script, kind).
+pub fn frozen_dead_end_script(rng: &mut Rng) -> Option<(MBoard, bool, Vec<Code>, &'static str)> {
+    let adj = |a: usize, b: usize| (0..4u8).any(|k| nb(a, k) == Some(b));
+    for _ in 0..80 {
+        let gold = rng.chance(1, 2);
+        let mirror = rng.chance(1, 2);
+        // canonical coordinates: X is gold; f in rows 2..=5, columns 2..=6
+        let f = (2 + rng.below(4)) * 8 + 2 + rng.below(5);
+        let d1 = rng.below(4) as u8;
+        let dy = rng.below(4) as u8;
+        let d2 = rng.below(4) as u8;
+        let d3 = rng.below(4) as u8;
+        let de = rng.below(4) as u8;
+        if dy == d1 || d2 == opp(d1) || d3 == opp(d2) {
+            continue;
+        }
+        let (b1, e) = match (nb(f, d1), nb(f, dy)) {
+            (Some(x), Some(y)) => (x, y),
+            _ => continue,
+        };
+        let a = match nb(b1, d2) {
+            Some(x) => x,
+            None => continue,
+        };
+        let c = match nb(a, d3) {
+            Some(x) => x,
+            None => continue,
+        };
+        let e2 = match nb(e, de) {
+            Some(x) => x,
+            None => continue,
+        };
+        let walk = [c, a, b1, f];
+        let all = [c, a, b1, f, e, e2];
+        let mut distinct = true;
+        for i in 0..all.len() {
+            for j in 0..i {
+                distinct &= all[i] != all[j];
+            }
+        }
+        if !distinct || all.iter().any(|q| TRAPS.contains(q)) {
+            continue;
+        }
+        // Y freezes X only on f; away on e2 it touches nothing of the walk
+        if [c, a, b1].iter().any(|q| adj(*q, e)) || walk.iter().any(|q| adj(*q, e2)) {
+            continue;
+        }
+        // bystanders: a frozen gold rabbit in the corner a1 under a silver piece on a2, a silver rabbit on h8
+        let (r, z, sr) = (56usize, 48usize, 7usize);
+        if all.iter().any(|q| *q == r || *q == z || *q == sr || adj(*q, r) || adj(*q, z) || adj(*q, sr)) {
+            continue;
+        }
+        let xs = 1 + rng.below(4) as u8; // c d h m
+        let ys = xs + 1 + rng.below((5 - xs) as usize) as u8;
+        let mut b = MBoard::empty();
+        b.0[c] = cell(xs, true);
+        b.0[e] = cell(ys, false);
+        b.0[r] = cell(0, true);
+        b.0[z] = cell(1 + rng.below(5) as u8, false);
+        b.0[sr] = cell(0, false);
+        let dir = |from: usize, to: usize| (0..4u8).find(|k| nb(from, *k) == Some(to));
+        let mut script: Vec<Code> = vec![];
+        let mut push_walk = |sqs: &[usize], script: &mut Vec<Code>| -> Option<()> {
+            for w in sqs.windows(2) {
+                script.push(step_code(w[0], dir(w[0], w[1])?));
+            }
+            script.push(PASS);
+            Some(())
+        };
+        let ok = (|| -> Option<()> {
+            push_walk(&[c, a, b1, f], &mut script)?; // first arrival
+            push_walk(&[e, e2], &mut script)?;
+            push_walk(&[f, b1, a, c], &mut script)?; // long retreat
+            push_walk(&[e2, e], &mut script)?;
+            push_walk(&[c, a, b1, f], &mut script)?; // second arrival
+            push_walk(&[e, e2], &mut script)?;
+            push_walk(&[f, b1], &mut script)?; // short retreat
+            push_walk(&[e2, e], &mut script)?;
+            push_walk(&[b1, a, b1, f], &mut script)?; // third arrival, exactly three steps
+            Some(())
+        })();
+        if ok.is_none() {
+            continue;
+        }
+        script.pop(); // the final pass is the one that must be withheld
+        // validate against the model's rule-only legal sets
+        let mut cur = b;
+        let mut g = true;
+        let mut st = 0u8;
+        let mut pend = Pend::None;
+        let mut valid = true;
+        for code in &script {
+            if *code == PASS {
+                if st == 0 {
+                    valid = false;
+                    break;
+                }
+                g = !g;
+                st = 0;
+                pend = Pend::None;
+                continue;
+            }
+            if !cur.legal(g, st, pend).contains(*code) {
+                valid = false;
+                break;
+            }
+            match cur.apply(g, pend, code_sq(*code), code_dir(*code)) {
+                Some(ap) if ap.captured.is_empty() => {
+                    cur = ap.board;
+                    pend = ap.pend;
+                    st += 1;
+                }
+                _ => {
+                    valid = false;
+                    break;
+                }
+            }
+        }
+        // at the end: step 3, nothing legal by the rules alone except the pass
+        if !valid || st != 3 || cur.legal(g, st, pend).iter().any(|c| c != PASS) {
+            continue;
+        }
+        let flip = !gold;
+        let tb = b.transform(mirror, flip);
+        let tscript: Vec<Code> = script.iter().map(|c| map_code(*c, mirror, flip)).collect();
+        return Some((tb, gold, tscript, "frozen_dead_end"));
+    }
+    None
+}
+
 pub fn play_saturated(games: u64, seed: u64, worker: usize, opts: &PlayOpts, mon: &mut dyn Monitor, sink: &mut Sink) {
     let mut rng = Rng::new(seed, (worker as u64) << 8 | 0x5B);
     for idx in 0..games {
-        let r = if idx % 3 == 2 { saturated_script2(&mut rng, (idx / 3) as usize) } else { saturated_script(&mut rng) };
+        let r = if idx % 7 == 6 { frozen_dead_end_script(&mut rng) } else if idx % 3 == 2 { saturated_script2(&mut rng, (idx / 3) as usize) } else { saturated_script(&mut rng) };
         match r {
             Some((b, gold, script, kind)) => {
                 sink.count(&format!("saturated_scripts_{}", kind));
